@@ -168,7 +168,11 @@ func HighLevel(text []byte, ch Chooser, probe Probe) []bool {
 				j++
 			}
 			if ch.Intn(6) == 0 && n-i > 32 {
-				j = i + 32 + ch.Intn(minInt(n-i-31, 80)) // long form on purpose
+				lim := 80
+				if ch.Intn(4) == 0 {
+					lim = 900 // runs of several hundred bytes in one long-form shift
+				}
+				j = i + 32 + ch.Intn(minInt(n-i-31, lim)) // long form on purpose
 				if j > n {
 					j = n
 				}
@@ -347,8 +351,8 @@ type Symbol struct {
 	Compact   bool
 	Layers    int
 	DataWords int
-	Words     []int   // data + check words
-	WordMods  [][]XY  // module positions of each word's bits (MSB first)
+	Words     []int  // data + check words
+	WordMods  [][]XY // module positions of each word's bits (MSB first)
 	Size      int
 	M         [][]bool // [y][x]
 }
@@ -359,10 +363,20 @@ func Capacity(layers int, compact bool) int { return TotalBits(layers, compact) 
 // Build draws the symbol for already stuffed data words. It returns nil if
 // the words do not fit (at least 3 check words are demanded).
 func Build(data []int, layers int, compact bool) *Symbol {
+	return BuildMin(data, layers, compact, 3)
+}
+
+// BuildMin is Build with the least number of check words the caller accepts
+// (the mode message can state any number of data words; three check words is
+// the least the standard recommends, not a structural limit).
+func BuildMin(data []int, layers int, compact bool, minCheck int) *Symbol {
 	ws := WordSize(layers)
 	total := TotalBits(layers, compact)
 	nwords := total / ws
-	if len(data) < 1 || len(data) > nwords-3 {
+	if minCheck < 1 {
+		minCheck = 1
+	}
+	if len(data) < 1 || len(data) > nwords-minCheck {
 		return nil
 	}
 	if compact && len(data) > 64 || !compact && len(data) > 2048 {
